@@ -163,7 +163,11 @@ def stepInstr (f : Finder) (i : Instr) (ev : Ev) (s : St) : Outcome :=
   | .goSub t => match tgt t with
     | some a => .cont { s with gosub := s.pc :: s.gosub, pc := a }
     | none => .stuck
-  | .ret ot => match s.gosub with
+  | .ret ot =>
+    -- `pop_go_sub_address`: only a GOSUB of the procedure that is running can be answered — those
+    -- pending in the callers (the stack below the innermost call's mark) are out of reach
+    if s.gosub.length ≤ s.marks.head?.getD 0 then raise f s 3 else
+    match s.gosub with
     | a :: rest => (match ot with
       | none => .cont { s with gosub := rest, pc := a + 1 }
       | some t => match tgt t with
